@@ -78,6 +78,10 @@ CHECKS.update({
    text="Exhaustive cross product on fresh worlds: three valid entries (root, chain member with refs, merge entry) x 29 single-field wire mutations x delivery (original claimed hash, recomputed hash, ancestor behind an authorised colluder's head) x route x victim pre-state. Each mutant is classified independently (mis-addressed, signature invalid per the dependency's verifier, foreign log id); classified mutants must never appear in the victim's entry map, listing or heads, and held entries and view must be unchanged.",
    note="Trusted: sim environment (content-addressed blocks), go-ipfs-log's entry.Verify as the definition of signature validity. Identity-block mutations are recorded here and judged by C03.",
    tech="exhaustive enumeration of a finite mutation family against the real implementation with an independent classifier as oracle"),
+ "C14": dict(cat="exploration", ref="5/C14",
+   text="Exhaustive cross product of 31 names (including dot/parent-directory segments and names that contain another database's manifest address) x 3 types x 6 write lists on three peers: address determinism across peers, pairwise inequality over the whole enumerated set, parse round trip, Create == DetermineAddress, Open on another peer yields recorded type and write list, local-only open of unknown and Create over existing refused, overwrite accepted.",
+   note="Trusted: sim environment (content-addressed blocks shared between peers). Restricted to inputs Create accepts.",
+   tech="exhaustive enumeration of a finite input family against the real implementation with pairwise comparison over the whole set"),
 })
 NOT_APPLICABLE = []
 ALL = ["C%02d" % i for i in range(1, 21)]
